@@ -1,1 +1,5 @@
-// placeholder
+#![allow(dead_code)]
+#[cfg(not(kani))]
+pub fn lookup(_name: &str) -> Option<fn()> {
+    None
+}
